@@ -228,7 +228,9 @@ func c20body(cs c20case) (func(), func() (string, error)) {
 				return "", fmt.Errorf("output %q: %v", res.Stdout, err)
 			}
 			names := m.TipNames()
-			sort.Slice(names, func(i, j int) bool { return len(names[i]) < len(names[j]) || (len(names[i]) == len(names[j]) && names[i] < names[j]) })
+			sort.Slice(names, func(i, j int) bool {
+				return len(names[i]) < len(names[j]) || (len(names[i]) == len(names[j]) && names[i] < names[j])
+			})
 			return "{" + strings.Join(names, ",") + "}", nil
 		}
 	case "shuffletips":
